@@ -64,7 +64,7 @@ CHECKS = {
         level="exploration", ref="DESIGN.md section 4 C08",
         technique="property-based testing (Hypothesis-generated inheritance graphs and supertype expressions) with exhaustive enumeration of all 2^n-1 entity subsets per graph x two part orders; oracle = two independent legality predicates (lib/expmodel.legal_set and the constructive ISO 10303-11 Annex B enumeration in lib/complexref.py) that must agree",
         text="For every generated graph all non-empty subsets are written as externally mapped instances (twice, with permuted parts and shuffled instances) and read by the real library; an instance must be created iff both reference predicates call the set legal, refused instances must not disturb the others, created instances must serialise to the model, and part order must not matter. Exhaustive per graph over subsets.",
-        note="Graphs on which the two references disagree (redundant supertype corners, ~3%) are excluded and counted. Singletons are executed but not asserted (ISO 10303-21 requires internal mapping for one part). Besides drawn graphs: every enumerated expression shape (depth <= 2, <= 4 operands), each also with an operand that is a subtype of a sibling of the carrying entity, and an enumerated family of two root hierarchies joined by a multiply inheriting entity (315 graphs; a third per quick run). No open finding (F59 was repaired; the shape classification code is inert)."),
+        note="Graphs on which the two references disagree (redundant supertype corners, ~3%) are excluded and counted. Singletons are executed but not asserted (ISO 10303-21 requires internal mapping for one part). Besides drawn graphs: every enumerated expression shape (depth <= 2, <= 4 operands), each also with an operand that is a subtype of a sibling of the carrying entity, and an enumerated family of two root hierarchies joined by a multiply inheriting entity (315 graphs; a third per quick run). No open finding (F59 was repaired; the shape classification code is inert). Open finding F93 (an ABSTRACT entity without any subtype can be instantiated in external mapping) lies outside the generators by construction - they make only entities with subtypes abstract - and is probed on every run with its fixed minimal input."),
     "C09": dict(
         level="exploration", ref="DESIGN.md section 4 C09",
         technique="exhaustive enumeration of short token strings per literal kind x delimiter context + rapidcheck random long tokens and writer grid, in-process against DFA recognisers transcribed from the Part 21 BNF and strtod/128-bit integer value functions",
